@@ -370,7 +370,13 @@ func (f *frame) execSlice(x *ssa.Slice) {
 			mx = xv.C
 		}
 		f.safety("slice", T(SBool, "(and (<= 0 %s) (<= %s %s) (<= %s %s) (<= %s %s))", lo.S, lo.S, hi.S, hi.S, mx.S, mx.S, xv.C.S), x.Pos())
-		f.env[x] = v.nameVal("slice", SliceV{B: xv.B, O: T(SInt, "(+ %s %s)", xv.O.S, lo.S), L: T(SInt, "(- %s %s)", hi.S, lo.S), C: T(SInt, "(- %s %s)", mx.S, lo.S), Elem: xv.Elem})
+		sub := v.nameVal("slice", SliceV{B: xv.B, O: T(SInt, "(+ %s %s)", xv.O.S, lo.S), L: T(SInt, "(- %s %s)", hi.S, lo.S), C: T(SInt, "(- %s %s)", mx.S, lo.S), Elem: xv.Elem}).(SliceV)
+		if lo.S != "0" {
+			// element j of the sub-slice is element lo+j of the original (stated with at-terms so that
+			// quantified facts about the original slice can be instantiated for sub-slice elements)
+			v.ctx.AssertRaw(fmt.Sprintf("(assert (forall ((j Int)) (! (= (at %s %s j) (at %s %s (+ %s j))) :pattern ((at %s %s j)))))", sub.B.S, sub.O.S, xv.B.S, xv.O.S, lo.S, sub.B.S, sub.O.S))
+		}
+		f.env[x] = sub
 	case Term:
 		if at, isArr := deref(x.X.Type()).Underlying().(*types.Array); isArr {
 			n := IntLit(at.Len())
